@@ -1097,7 +1097,7 @@ pub fn run_thr(case: &Case, dir: PathBuf) -> Outcome {
             }
             // C04 / C12 / C16 thread runs are judged by handle identity and the reopen check
             // above; whether concurrent reads and writes are linearizable is C14's verdict
-            "C04" => {}
+            "C04" | "C10" => {}
             _ => {
                 let r = lin::check(&initial, &events, 3_000_000);
                 stats.add("lin_states_explored", r.explored);
